@@ -220,7 +220,8 @@ def _names(action):
 
 def _describe(n):
     f, a, k = n.payload
-    return f"{getattr(f, '__name__', '?')}@{id(f) % 100000}{a}{k}<-{[o.parent.name[:10] for o in n.inputs.values()]}"
+    where = getattr(getattr(f, "__code__", None), "co_firstlineno", "?")
+    return f"{getattr(f, '__name__', '?')}(defined at line {where}){a}{k}<-{[o.parent.name[:10] for o in n.inputs.values()]}"
 
 
 def _differs(n1, n2):
